@@ -55,6 +55,12 @@ func literalElems(al *ssa.Alloc) ([]ssa.Value, bool) {
 // literal's elements and the loop's header. The loop is one whose only exit is the header's own bound test, so that its
 // body runs once for every element.
 func rangedLiteralElem(v ssa.Value) ([]ssa.Value, *ssa.BasicBlock, bool) {
+	return rangedLiteralElemOpt(v, true)
+}
+
+// rangedLiteralElemOpt: with strict == false the loop may be left early (a search that returns at the first hit): the
+// element is then "some element of the literal", which is all a per-element test needs.
+func rangedLiteralElemOpt(v ssa.Value, strict bool) ([]ssa.Value, *ssa.BasicBlock, bool) {
 	var idx ssa.Value
 	var elems []ssa.Value
 	var ok bool
@@ -155,6 +161,9 @@ func rangedLiteralElem(v ssa.Value) ([]ssa.Value, *ssa.BasicBlock, bool) {
 		}
 	default:
 		return nil, nil, false
+	}
+	if !strict {
+		return elems, h, true
 	}
 	// no way out of the body but through the header
 	lh := loopHeaders(h.Parent())
